@@ -115,7 +115,7 @@ func verifAssume(bool) {}
 
 //@ func Serialize
 //@ trusted "reflect + unsafe (DataToByteSlice): appends the little-endian bytes of the datum; contract stated per dynamic kind for int8, uint8, int16, int32, int64, string and []byte only"
-//@ modifies mem:byte
+//@ modifies mem:uint8
 //@ ensures #ok: (kindis(datum, "int8") || kindis(datum, "uint8") || kindis(datum, "int16") || kindis(datum, "int32") || kindis(datum, "int64") || kindis(datum, "string") || kindis(datum, "bytes")) ==> result1 == nil
 //@ ensures #len1: (kindis(datum, "int8") || kindis(datum, "uint8")) ==> len(result0) == len(buffer) + 1
 //@ ensures #len2: kindis(datum, "int16") ==> len(result0) == len(buffer) + 2
@@ -123,14 +123,14 @@ func verifAssume(bool) {}
 //@ ensures #len8: kindis(datum, "int64") ==> len(result0) == len(buffer) + 8
 //@ ensures #lenS: kindis(datum, "string") ==> len(result0) == len(buffer) + len(asstr(datum))
 //@ ensures #lenB: kindis(datum, "bytes") ==> len(result0) == len(buffer) + len(asbytes(datum))
-//@ ensures #prefix: forall(i, 0, len(buffer), result0[i] == old(buffer[i]))
+//@ ensures #prefix: forallint(a, pattern(mem(result0)[a]), (base(result0) <= a && a < base(result0)+len(buffer)) ==> mem(result0)[a] == old(mem(buffer))[a - base(result0) + base(buffer)])
 //@ ensures #v8: kindis(datum, "int8") ==> sle8(result0, len(buffer)) == asint(datum)
 //@ ensures #vu8: kindis(datum, "uint8") ==> result0[len(buffer)] == asint(datum)
 //@ ensures #v16: kindis(datum, "int16") ==> sle16(result0, len(buffer)) == asint(datum)
 //@ ensures #v32: kindis(datum, "int32") ==> sle32(result0, len(buffer)) == asint(datum)
 //@ ensures #v64: kindis(datum, "int64") ==> sle64(result0, len(buffer)) == asint(datum)
-//@ ensures #vS: kindis(datum, "string") ==> forall(i, 0, len(asstr(datum)), result0[len(buffer)+i] == asstr(datum)[i])
-//@ ensures #vB: kindis(datum, "bytes") ==> forall(i, 0, len(asbytes(datum)), result0[len(buffer)+i] == old(asbytes(datum)[i]))
+//@ ensures #vS: kindis(datum, "string") ==> forallint(a, pattern(mem(result0)[a]), (base(result0)+len(buffer) <= a && a < base(result0)+len(result0)) ==> mem(result0)[a] == asstr(datum)[a - base(result0) - len(buffer)])
+//@ ensures #vB: kindis(datum, "bytes") ==> forallint(a, pattern(mem(result0)[a]), (base(result0)+len(buffer) <= a && a < base(result0)+len(result0)) ==> mem(result0)[a] == old(mem(buffer))[a - base(result0) - len(buffer) + base(asbytes(datum))])
 //@ ensures #place: result0 != nil && (fresh(result0) || base(result0) == base(buffer))
 //@ ensures #frame: forallint(a, pattern(mem(result0)[a]), (a < base(result0) || a >= base(result0) + len(result0)) ==> mem(result0)[a] == old(mem(buffer))[a])
 
@@ -156,7 +156,7 @@ func verifAssume(bool) {}
 //@ trusted "unsafe cast of the slice header to a string header"
 //@ pure
 //@ ensures len(result) == len(b)
-//@ ensures forall(i, 0, len(b), result[i] == b[i])
+//@ ensures forallint(i, pattern(result[i]), (0 <= i && i < len(b)) ==> result[i] == b[i])
 
 // decode(encode(ds)) == ds exactly when the name fits the one-byte length prefix
 func lemmaDSRoundTrip(ds DataShape) {
@@ -169,7 +169,6 @@ func lemmaDSRoundTrip(ds DataShape) {
 
 //@ lemma lemmaDSRoundTrip
 //@ props C28
-//@ option strext
 //@ requires #nameFits: len(ds.Name) <= 255
 
 func lemmaCanaryOffset(index int64, rs int32) {
